@@ -616,6 +616,9 @@ func init() {
 						for where := 0; where <= 1; where++ {
 							it = append(it, Item{PkgKey: "root", Func: "VerifC05_E2E", Shape: []int{ver, mt, a, -1, where, 3}})
 						}
+						if ai%3 == 0 || tier == "thorough" {
+							it = append(it, Item{PkgKey: "root", Func: "VerifC05_E2E", Shape: []int{ver, mt, a, -1, 2, 0}}) // FOpts + FPort, empty FRMPayload
+						}
 						for bi, b := range set {
 							if tier != "thorough" && (ai+bi)%5 != 0 {
 								continue
